@@ -401,7 +401,7 @@ class LayerAssertCase(Case):
       layer.assert_constraints(eps=eps)
       conds = [b for _, b in c.asserts[before:]]
       ok = E.ball(conds)
-    except (ValueError, TypeError) as e:
+    except (ValueError, TypeError, AttributeError) as e:
       c.notes.append('raised %s: %s' % (type(e).__name__, e))
       ok = E.FALSE
     subs = [layer]
